@@ -37,6 +37,11 @@ def install():
         except Exception:  # noqa: B902  a descriptor that cannot be written is reported, never silently dropped
             skip = "harness:" + traceback.format_exc()[-600:]
         op = orig(cmd, arch)
+        if desc is not None:
+            try:
+                desc = desc + post_tokens(cmd)
+            except Exception:  # noqa: B902
+                desc, skip = None, "harness:" + traceback.format_exc()[-600:]
         CAPTURE[id(op)] = (desc, skip, op)
         return op
 
@@ -47,6 +52,19 @@ def install():
 
 def clear():
     CAPTURE.clear()
+
+
+def post_tokens(cmd):
+    """after the conversion: allocations of the tensors behind the feature maps, in the roles the operation gives them"""
+    from ethosu.vela.high_level_command_stream import NpuStripe
+
+    if not isinstance(cmd, NpuStripe):
+        return []
+
+    def al(t):
+        return "n" if t is None or t.address is None else f"{int(t.address)},{int(t.storage_size())}"
+
+    return ["ifmalloc=" + al(cmd.ifm_tensor), "ifm2alloc=" + al(cmd.ifm2_tensor), "ofmalloc=" + al(cmd.ofm_tensor)]
 
 
 # ------------------------------------------------------------------------------------------------
@@ -354,7 +372,7 @@ def parse(ans):
         k, _, v = part.strip().partition("=")
         d[k] = v
     d["model_eq"] = d.get("model") == "eq"
-    for k in ("roles", "weights", "dma", "clamp"):
+    for k in ("roles", "weights", "dma", "clamp", "fm"):
         v = d.get(k, "?")
         d[k + "_n"] = None if v == "-" else (int(v.split()[0]) if v.split() and v.split()[0].isdigit() else -1)
     return d
@@ -442,7 +460,7 @@ def judge(ck, outs, tag="hl2npu"):
         raise common.InfraError(f"{tag}: {n_skip} of {n_skip + len(lines)} commands could not be described (see notes)")
     answers = [parse(a) for a in ck.model(lines)] if lines else []
     spec_bad, model_bad, unparsed = [], [], []
-    judged = {"roles": 0, "weights": 0, "dma": 0, "clamp": 0}
+    judged = {"roles": 0, "weights": 0, "dma": 0, "clamp": 0, "fm": 0}
     for (o, si, i), line, d in zip(own, lines, answers):
         ck.count(tag + "_ops")
         for ft in features(line):
@@ -471,7 +489,8 @@ def judge(ck, outs, tag="hl2npu"):
     what = {"roles": "operand roles of a binary elementwise operation are inconsistent (feature map, quantisation, scalar flag, reverse bit)",
             "weights": "weight / scale ranges of the operation are not the encoded sections of its depth slice",
             "dma": "DMA does not cover the sections it buffers / wrong destination",
-            "clamp": "activation clamp is not the quantised RELU range of the OFM tensor"}
+            "clamp": "activation clamp is not the quantised RELU range of the OFM tensor",
+            "fm": "a feature map of the operation leaves the allocation of the tensor it was created from"}
     seen = set()
     for o, si, i, line, d, rej in spec_bad:
         for k in rej:
@@ -492,4 +511,4 @@ def judge(ck, outs, tag="hl2npu"):
         ck.sample({"request": line[:400], "verdict": d["raw"][:200]})
     return {"hl2npu_operations": len(lines), "hl2npu_model_disagreements": len(model_bad), "hl2npu_spec_rejections": len(spec_bad),
             "hl2npu_judged_roles": judged["roles"], "hl2npu_judged_weights": judged["weights"], "hl2npu_judged_dma": judged["dma"],
-            "hl2npu_judged_clamp": judged["clamp"], "hl2npu_skipped": n_skip}
+            "hl2npu_judged_clamp": judged["clamp"], "hl2npu_judged_footprints": judged["fm"], "hl2npu_skipped": n_skip}
